@@ -79,9 +79,10 @@ Proof.
   eapply post_trans; [exact Hb|]. apply IH. exact (okst_esim _ _ W Hb).
 Qed.
 
-Lemma SF_render_for body x len base : SF body -> forall vs i, SF (render_for_loop body x len base vs i).
+Lemma SF_render_for body x len base : SF body -> (forall s, rsafe (base s)) -> forall vs i, SF (render_for_loop body x len base vs i).
 Proof.
-  intros Hb; induction vs as [|v vs IH]; intros i s k W; [apply post_here; exact I|]. cbn [render_for_loop].
+  intros Hb Hbase; induction vs as [|v vs IH]; intros i s k W; [apply post_here; exact I|]. cbn [render_for_loop].
+  apply post_of_res; [apply Hbase|]. intros b0 _.
   match goal with |- context [body (push_sandbox ?a s) k] =>
     specialize (Hb (push_sandbox a s) k (okst_push_sandbox _ _ W)); destruct (body (push_sandbox a s) k) as [[o1 s1] k1] end.
   destruct Hb as [Hb Ho]. apply esim_pop_sandbox in Hb. destruct o1; try (split; assumption).
@@ -347,7 +348,7 @@ Proof.
       destruct arr as [|v0 vs0]; [apply post_here; exact I|].
       apply post_of_res; [apply eval_args_safe|]. intros ar _.
       apply post_of_res; [exact Hl1|]. intros body Eb.
-      apply SF_render_for; [apply rec_SF; apply Hl2; exact Eb|exact W].
+      apply SF_render_for; [apply rec_SF; apply Hl2; exact Eb|intro s0; apply eval_args_safe|exact W].
     + apply post_of_res; [apply eval_args_safe|]. intros ar _.
       apply post_of_res; [exact Hl1|]. intros body Eb.
       pose proof (rec_SF body (Hl2 _ Eb) (push_sandbox ar st) k (okst_push_sandbox _ _ W)) as Hb.
